@@ -56,6 +56,8 @@ CONSTANTS
   Ladders,    \* heights of the import-ladder gadgets
   MacroCloses, \* repetitions of the "macro declaration closes a block on its line" gadget
   SnipDeeps,  \* depths of the "deep snippet imported deep inside blocks" gadgets
+  SnipSplits, \* 1000000*e + 1000*o + i: snippet i blocks deep imported o blocks deep; e = 1: innermost block empty
+  FileSplits, \* same encoding: file i blocks deep imported o blocks deep
   FileChains, \* 1000*k + d: chains of k+1 files, each nesting the next import inside d blocks
   Devs        \* deviations of the code the rule takes into account (as-is model)
 
@@ -64,10 +66,9 @@ vars == <<layer, doc, style, mut, raw>>
 
 NestLimit == 256      \* "Level of nesting is limited" - deepest accepted block depth
 ExpLimit  == 255      \* import expansion depth limit
-\* Bound on the nesting of a returned tree when imports are involved: an import is only
-\* expanded at most ExpLimit blocks deep and what it splices in was itself parsed under
-\* NestLimit, so no tree can be deeper than the sum of the two limits.
-ImportDepthBound == 2 * NestLimit
+\* Bound on the nesting of a returned tree when imports are involved: the nesting limit
+\* applies to what Read returns, however the tree was put together.
+ImportDepthBound == NestLimit
 LadderMax == 16       \* ladders up to this height must expand (2^16 nodes); higher: any
 \* VERIF_UNSET is not set; VERIF_BSNL holds a backslash directly followed by a newline
 EnvTable  == [VERIF_SET |-> "ENVVAL", VERIF_BSNL |-> "x\\\ny"]
@@ -123,6 +124,12 @@ DeepWrap(d, inner) == IF d = 0 THEN inner ELSE B("a", <<>>, <<DeepWrap(d - 1, in
 (* a block whose only child, a macro declaration, carries the closing brace on its line *)
 MacroCloseItem == Brk(B("x", <<>>, <<M("m", <<P("1"), P("2")>>)>>), "sameclose")
 (* a snippet d blocks deep, imported d blocks deep                                      *)
+(* d nested blocks, the innermost one empty (e = 1) or holding one directive (e = 0)   *)
+DeepEnd(d, e) == IF e = 1 THEN DeepWrap(d - 1, B("a", <<>>, <<>>)) ELSE DeepWrap(d, D("c", <<P("z")>>))
+SplitE(c) == c \div 1000000
+SplitO(c) == (c % 1000000) \div 1000
+SplitI(c) == c % 1000
+SnipSplitItems(c) == <<S("s", <<DeepEnd(SplitI(c), SplitE(c))>>), DeepWrap(SplitO(c), I("s"))>>
 SnipDeepItems(d) == <<S("s", <<DeepWrap(d, D("c", <<P("z")>>))>>), DeepWrap(d, I("s"))>>
 LName(i) == "l" \o ToString(i)
 LadderItems(h) ==
@@ -219,13 +226,17 @@ DeepName(d)   == "X_deep" \o ToString(d)
 LadderName(h) == "X_ladder" \o ToString(h)
 MCloseName(n) == "X_mclose" \o ToString(n)
 SnipDeepName(d) == "X_snipdeep" \o ToString(d)
+SnipSplitName(c) == "X_snipsplit" \o ToString(c)
 GadgetNames == DOMAIN FixedPool \cup {DeepName(d) : d \in Depths} \cup {LadderName(h) : h \in Ladders}
                \cup {MCloseName(n) : n \in MacroCloses} \cup {SnipDeepName(d) : d \in SnipDeeps}
+               \cup {SnipSplitName(c) : c \in SnipSplits}
 Gadget(g) ==
   IF g \in DOMAIN FixedPool THEN FixedPool[g]
   ELSE IF \E d \in Depths : g = DeepName(d) THEN <<DeepItem(CHOOSE d \in Depths : g = DeepName(d))>>
   ELSE IF \E n \in MacroCloses : g = MCloseName(n)
        THEN [i \in 1..(CHOOSE n \in MacroCloses : g = MCloseName(n)) |-> MacroCloseItem]
+  ELSE IF \E c \in SnipSplits : g = SnipSplitName(c)
+       THEN SnipSplitItems(CHOOSE c \in SnipSplits : g = SnipSplitName(c))
   ELSE IF \E d \in SnipDeeps : g = SnipDeepName(d)
        THEN SnipDeepItems(CHOOSE d \in SnipDeeps : g = SnipDeepName(d))
   ELSE LadderItems(CHOOSE h \in Ladders : g = LadderName(h))
@@ -472,9 +483,8 @@ Classify(an, enabled) ==
                       ELSE CHOOSE c \in DevClass(CHOOSE d \in hard : TRUE) : c # "timeout")
               ELSE IF an.bigLadder /\ an.nbad = 0 /\ ~an.tooDeep THEN "any"
               ELSE IF "MacroCloseNesting" \in devs THEN "any"
-              \* the documentation does not say whether the nesting limit applies to what
-              \* imports put together
-              ELSE IF deep THEN "any"
+              \* the nesting limit applies to what imports put together as well
+              ELSE IF deep THEN (IF "DeepImportTree" \in devs THEN "any" ELSE "error")
               ELSE IF an.err THEN "error" ELSE "tree"
   IN  [class |-> cls, tree |-> IF cls = "tree" THEN Resolve(an.out) ELSE <<>>, devs |-> devs]
 
@@ -557,7 +567,9 @@ RuleOut(ex) ==
 (* harness into an empty directory; the first one is parsed.                            *)
 FileScenarios ==
   {[kind |-> kd, k |-> 0, d |-> 0] : kd \in {"self", "cycle2", "cycle3", "plain"}} \cup
-  {[kind |-> "chain", k |-> c \div 1000, d |-> c % 1000] : c \in FileChains}
+  {[kind |-> "chain", k |-> c \div 1000, d |-> c % 1000] : c \in FileChains} \cup
+  \* kind "split": k = blocks around the import, d = blocks in the imported file, e = innermost empty
+  {[kind |-> IF SplitE(c) = 1 THEN "splitE" ELSE "split", k |-> SplitO(c), d |-> SplitI(c)] : c \in FileSplits}
 ChainName(j) == IF j = 0 THEN "x.conf" ELSE "f" \o ToString(j) \o ".conf"
 Leaf == D("c", <<P("z")>>)
 FilesOf(sc) ==
@@ -571,6 +583,9 @@ FilesOf(sc) ==
                                [name |-> "fc.conf", items |-> <<I("fa.conf")>>]>>
     [] sc.kind = "plain"  -> <<[name |-> "x.conf", items |-> <<I("inc.conf"), B("a", <<>>, <<I("s")>>)>>],
                                [name |-> "inc.conf", items |-> <<D("b", <<P("y")>>), S("s", <<Leaf>>)>>]>>
+    [] sc.kind \in {"split", "splitE"} ->
+         <<[name |-> "x.conf", items |-> <<DeepWrap(sc.k, I("f1.conf"))>>],
+           [name |-> "f1.conf", items |-> <<DeepEnd(sc.d, IF sc.kind = "splitE" THEN 1 ELSE 0)>>]>>
     [] OTHER -> [j \in 1..(sc.k + 1) |->
                    [name |-> ChainName(j - 1),
                     items |-> <<DeepWrap(sc.d, IF j <= sc.k THEN I(ChainName(j)) ELSE Leaf)>>]]
@@ -582,16 +597,19 @@ DeepNodes(d, inner) == IF d = 0 THEN inner ELSE [n |-> "a", a |-> <<>>, b |-> TR
 (* documented outcome: importing a file works like importing a snippet; cycles end in   *)
 (* the expansion-limit error; nesting is bounded                                         *)
 FileExpected(sc, enabled) ==
-  LET total == (sc.k + 1) * sc.d IN
+  LET total == IF sc.kind \in {"split", "splitE"} THEN sc.k + sc.d ELSE (sc.k + 1) * sc.d
+      bottom == IF sc.kind = "splitE" THEN [n |-> "a", a |-> <<>>, b |-> TRUE, c |-> <<>>] ELSE LeafNode
+      levels == IF sc.kind = "splitE" THEN total - 1 ELSE total IN
   CASE sc.kind \in {"self", "cycle2", "cycle3"} -> [class |-> "error", tree |-> <<>>, devs |-> {}]
     [] sc.kind = "plain" ->
          [class |-> "tree", devs |-> {},
           tree |-> <<[n |-> "b", a |-> <<"y">>, b |-> FALSE, c |-> <<>>],
                      [n |-> "a", a |-> <<>>, b |-> TRUE, c |-> <<LeafNode>>]>>]
     [] OTHER ->
-         IF total <= NestLimit THEN [class |-> "tree", tree |-> <<DeepNodes(total, LeafNode)>>, devs |-> {}]
-         ELSE IF total > ImportDepthBound THEN [class |-> "error", tree |-> <<>>, devs |-> {}]
-         ELSE [class |-> "any", tree |-> <<>>, devs |-> {"DeepImportTree"} \cap enabled]
+         IF total <= NestLimit THEN [class |-> "tree", tree |-> <<DeepNodes(levels, bottom)>>, devs |-> {}]
+         ELSE IF "DeepImportTree" \in enabled /\ total <= 2 * NestLimit
+              THEN [class |-> "any", tree |-> <<>>, devs |-> {"DeepImportTree"}]
+         ELSE [class |-> "error", tree |-> <<>>, devs |-> {}]
 RowFile(sc) ==
   [layer |-> "i", scen |-> sc, files |-> FilePieces(sc), env |-> EnvTable, imports |-> TRUE,
    exp |-> FileExpected(sc, {}).class, xdev |-> SetToSeq(FileExpected(sc, AllDevs).devs)]
